@@ -1,8 +1,37 @@
 package main
 
-// From a failed obligation to a replay file. The counterexample search
-// (model-based replay on the real code) is per function; where none is
-// available the record carries the obligation and the solver output.
+// From a failed obligation to a replay file.
+//
+// The solvers answer unknown/timeout (no model) for failed obligations with
+// quantifiers, which is almost all of them. To still demonstrate a violation on
+// the real code, a bounded witness search keyed to the failed obligation's
+// function is run: oracle / canary tests under /verif/replays, injected into the
+// package with `go test -overlay` (nothing is written to /repo). A failing test
+// is a concrete counterexample replayed on the real code; if none fails the
+// violation is reported with "no-failing-input-found". The search is never
+// counted as evidence that a property holds.
+
+import (
+	"context"
+	"encoding/json"
+	"fmt"
+	"os"
+	"os/exec"
+	"path/filepath"
+	"strings"
+	"time"
+)
+
+type oracleEntry struct {
+	Match    string   `json:"match"`
+	Dir      string   `json:"dir"`
+	File     string   `json:"file"`
+	Run      string   `json:"run"`
+	Extra    []string `json:"extra"`
+	RunExtra string   `json:"runextra"`
+}
+
+var oracleCache = map[string]map[string]interface{}{}
 
 func replayObligation(P *Prog, dir, id string, o *oblResult) (string, bool) {
 	extra, found := tryCounterexample(P, id, o)
@@ -10,5 +39,135 @@ func replayObligation(P *Prog, dir, id string, o *oblResult) (string, bool) {
 }
 
 func tryCounterexample(P *Prog, id string, o *oblResult) (map[string]interface{}, bool) {
-	return nil, false
+	data, err := os.ReadFile(filepath.Join(verifRoot, "replays", "oracle", "index.json"))
+	if err != nil {
+		return nil, false
+	}
+	var idx struct {
+		Entries []oracleEntry `json:"entries"`
+	}
+	if json.Unmarshal(data, &idx) != nil {
+		return nil, false
+	}
+	var tried []string
+	for _, e := range idx.Entries {
+		if !strings.HasPrefix(o.Name, e.Match) {
+			continue
+		}
+		key := e.Dir + "|" + e.File + "|" + e.Run + "|" + strings.Join(e.Extra, ",")
+		res, ok := oracleCache[key]
+		if !ok {
+			res = runOracle(e)
+			oracleCache[key] = res
+		}
+		tried = append(tried, fmt.Sprintf("%s -run '%s' in %s: %v", e.File, e.Run, e.Dir, res["verdict"]))
+		if res["verdict"] == "FAIL" {
+			out := map[string]interface{}{
+				"counterexample": map[string]interface{}{
+					"kind":    "bounded witness search on the real code (go test -overlay), keyed to the failed obligation",
+					"test":    e.File,
+					"run":     res["cmd"],
+					"output":  res["output"],
+					"witness": res["witness"],
+					"overlay": res["overlay"],
+					"dir":     res["dir"],
+					"runpat":  res["runpat"],
+				},
+				"witness_search": tried,
+			}
+			return out, true
+		}
+	}
+	if len(tried) == 0 {
+		return map[string]interface{}{"witness_search": []string{"no witness search is registered for this function"}}, false
+	}
+	return map[string]interface{}{"witness_search": tried}, false
+}
+
+func runOracle(e oracleEntry) map[string]interface{} {
+	repl := map[string]string{}
+	files := append([]string{e.File}, e.Extra...)
+	for i, f := range files {
+		repl[filepath.Join(repoRoot, e.Dir, fmt.Sprintf("zz_govc_replay%d_test.go", i))] = filepath.Join(verifRoot, f)
+	}
+	ov, _ := json.Marshal(map[string]interface{}{"Replace": repl})
+	ovf := filepath.Join(workDir, fmt.Sprintf("overlay%d.json", len(oracleCache)))
+	os.WriteFile(ovf, ov, 0644)
+	run := e.Run
+	if e.RunExtra != "" {
+		run += "|" + e.RunExtra
+	}
+	ctx, cancel := context.WithTimeout(context.Background(), 150*time.Second)
+	defer cancel()
+	args := []string{"test", "-overlay", ovf, "-vet=off", "-count=1", "-timeout", "120s", "-run", run, "./" + e.Dir + "/"}
+	cmd := exec.CommandContext(ctx, "go", args...)
+	cmd.Dir = repoRoot
+	cmd.Env = append(os.Environ(), "GOFLAGS=-mod=mod", "GOPROXY=off", "GOSUMDB=off", "GOTOOLCHAIN=local")
+	outb, err := cmd.CombinedOutput()
+	out := string(outb)
+	res := map[string]interface{}{"cmd": "go " + strings.Join(args, " "), "output": truncate(out, 6000), "overlay": repl, "dir": e.Dir, "runpat": run}
+	switch {
+	case err == nil:
+		res["verdict"] = "pass"
+	case strings.Contains(out, "--- FAIL") || strings.Contains(out, "panic:"):
+		res["verdict"] = "FAIL"
+		var w []string
+		for _, l := range strings.Split(out, "\n") {
+			if strings.Contains(l, "WITNESS") || strings.Contains(l, "panic:") || strings.Contains(l, "--- FAIL") {
+				w = append(w, strings.TrimSpace(l))
+				if len(w) >= 8 {
+					break
+				}
+			}
+		}
+		res["witness"] = w
+	default:
+		res["verdict"] = "error (does not build or timed out)"
+	}
+	return res
+}
+
+// cmdReplay re-runs the recorded witness test of a replay file against /repo's current tree.
+func cmdReplay(args []string) int {
+	if len(args) != 1 {
+		fmt.Fprintln(os.Stderr, "usage: govc replay <replay-file.json>")
+		return 2
+	}
+	data, err := os.ReadFile(args[0])
+	if err != nil {
+		fmt.Fprintln(os.Stderr, err)
+		return 2
+	}
+	var rec struct {
+		Property       string `json:"property"`
+		Obligation     string `json:"obligation"`
+		Reason         string `json:"reason"`
+		Counterexample *struct {
+			Overlay map[string]string `json:"overlay"`
+			Dir     string            `json:"dir"`
+			RunPat  string            `json:"runpat"`
+		} `json:"counterexample"`
+	}
+	if err := json.Unmarshal(data, &rec); err != nil {
+		fmt.Fprintln(os.Stderr, err)
+		return 2
+	}
+	fmt.Printf("property %s, failed obligation %s\n  %s\n", rec.Property, rec.Obligation, rec.Reason)
+	if rec.Counterexample == nil {
+		fmt.Println("no failing input was found for this obligation (the record carries the obligation, the SMT file and the solver output)")
+		return 0
+	}
+	ov, _ := json.Marshal(map[string]interface{}{"Replace": rec.Counterexample.Overlay})
+	ovf := filepath.Join(workDir, "replay-overlay.json")
+	os.WriteFile(ovf, ov, 0644)
+	cmd := exec.Command("go", "test", "-overlay", ovf, "-vet=off", "-count=1", "-timeout", "120s", "-run", rec.Counterexample.RunPat, "./"+rec.Counterexample.Dir+"/")
+	cmd.Dir = repoRoot
+	cmd.Env = append(os.Environ(), "GOFLAGS=-mod=mod", "GOPROXY=off", "GOSUMDB=off", "GOTOOLCHAIN=local")
+	cmd.Stdout, cmd.Stderr = os.Stdout, os.Stderr
+	if err := cmd.Run(); err != nil {
+		fmt.Println("replay: the witness test FAILS on the current tree (violation reproduced)")
+		return 1
+	}
+	fmt.Println("replay: the witness test passes on the current tree")
+	return 0
 }
